@@ -111,6 +111,59 @@ def register(op):
         fresh()
         return res
 
+    @op("c03_fresh_compare")
+    def _(a):
+        """the direct statement of C03 on the implementation: after every step, every view of the object equals the
+        same view of a freshly built complex (in a sibling registry) with the object's current sequence/structure"""
+        seq, struct, ops = a
+        fresh()
+        class Twin(bc.ComplexS):
+            pass
+        c = bc.ComplexS(doms(seq), list(struct), name="V")
+        def view(x, k, arg=None):
+            try:
+                if k == "strand_table": return [names(s_) for s_ in x.strand_table]
+                if k == "pair_table": return [list(r_) for r_ in x.pair_table]
+                if k == "exterior_domains": return list(x.exterior_domains)
+                if k == "enclosed_domains": return list(x.enclosed_domains)
+                if k == "is_connected": return x.is_connected
+                if k == "kernel_string": return x.kernel_string
+                if k == "size": return x.size
+                if k == "rotate": return [[names(s_), list(t_)] for s_, t_ in x.rotate()]
+                if k == "rotate_pt": return [[[names(r_) for r_ in st_], [list(r_) for r_ in pt_]] for st_, pt_ in x.rotate_pt()]
+                if k == "strand_length": return x.strand_length(arg)
+                if k == "get_domain": return x.get_domain(tuple(arg)).name
+                if k == "get_paired_loc": return x.get_paired_loc(tuple(arg))
+                if k == "get_loop_index": return x.get_loop_index(tuple(arg))
+            except Exception as e:
+                return "<" + type(e).__name__ + ">"
+            return None
+        bad = None
+        for o in ops:
+            k = o[0]
+            if k == "set_turns":
+                try:
+                    c.turns = o[1]
+                except Exception as e:
+                    bad = f"turns = {o[1]} raised {type(e).__name__}"
+                    break
+                continue
+            if k in ("turns", "sequence", "structure", "canonical_form"):
+                continue
+            arg = o[1] if len(o) > 1 else None
+            got = view(c, k, arg)
+            clear_singletons(Twin)
+            t = Twin(doms(names(c.sequence)), list(c.structure), name="T")
+            want = view(t, k, arg)
+            del t
+            if got != want:
+                bad = f"{k}{tuple(arg) if isinstance(arg, list) else ''} = {got!r}, a fresh complex with the same sequence/structure gives {want!r}"
+                break
+        del c
+        clear_singletons(Twin)
+        fresh()
+        return bad
+
     @op("c03_history")
     def _(a):
         seq, struct, ops = a
